@@ -4,6 +4,7 @@ import os
 
 from .. import callgraph as CG
 from .. import cfg as C
+from .. import summary as SUM
 from .. import seq as S
 from .. import subsock as SS
 from .. import tp as TP
@@ -75,6 +76,7 @@ def run(ctx):
         raise Broken("C08.R1: only %d ops explored" % nops)
 
     check_ops_before_open(P, ctx)
+    check_drain_loops(P, ctx, tables)
     check_fd_ownership(P, ctx)
     check_owner_false(P, ctx, tables)
     check_resource_asserts(P, ctx)
@@ -757,8 +759,7 @@ def check_files(P, ctx, tables):
     okd = False
     for f in dn:
         for c in f.calls("unlink"):
-            wb = f.where()[c][0]
-            if f.fields_of(f.nodes[c]["args"][0])[-1:] == ("path",) and any("owner" in f.show(cond) and wb in C.only_via_edge(f, b, "T") for b, cond in C.cond_blocks(f)):
+            if f.fields_of(f.nodes[c]["args"][0])[-1:] == ("path",) and SUM.guarded(P, f, c, lambda g, cond: "owner" in g.show(cond)):
                 cr = set(CG.reach(P, [ux[0].slots["close"]])[0])
                 if f in cr:
                     okd = True
@@ -991,3 +992,81 @@ def check_local_ownership(P, ctx):
             r9.ok("%s: every locally obtained object has an owner at every exit" % f.qname, "ownership typestate on all paths")
     if ninst < 60:
         raise Broken("C08.R9: only %d creator call sites" % ninst)
+
+
+def check_drain_loops(P, ctx, tables):
+    """R11: on the close/cleanup path a loop that empties a counted collection by calling a remover (a function
+    that decrements the collection's count, usually compacting the array) must run until the count is zero.  A loop
+    that advances an index against the shrinking count (`for (i = 0; i < n->count; i++) remove(n, i)`) stops half way:
+    every second element - its descriptor, its registration - is left behind."""
+    r = ctx.rule("C08.R11", "teardown loops over a counted collection run until the collection is empty")
+    roots = [f for t in tables for s_ in ("close", "cleanup") for f in [t.slots.get(s_)] if f is not None]
+    roots += [g for g in (P.fn_opt("xcm_close"), P.fn_opt("xcm_cleanup")) if g is not None]
+    parent, _ = CG.reach(P, roots)
+    memo = {}
+
+    def shrinks(g, depth=2):
+        """field names g decrements (directly or through callees)"""
+        if g.key in memo:
+            return memo[g.key]
+        memo[g.key] = set()
+        out = set()
+        for b, i, e, lhs, rhs, op in g.stores():
+            fl = g.fields_of(lhs)
+            if not fl:
+                continue
+            if op in ("--", "post--") or (op == "-=" and rhs is not None and C.const_of(g, rhs) == 1):
+                out.add(fl[-1])
+            elif op == "=" and rhs is not None:
+                rn = g.sn(rhs)
+                if rn["k"] == "bin" and rn["op"] == "-" and g.fields_of(rn["l"])[-1:] == (fl[-1],) and C.const_of(g, rn["r"]) == 1:
+                    out.add(fl[-1])
+        if depth > 0:
+            for c in g.calls():
+                for d in P.callees(g, c)[0]:
+                    out |= shrinks(d, depth - 1)
+        memo[g.key] = out
+        return out
+    n = 0
+    for f in parent:
+        if not f.blocks:
+            continue
+        for comp in C.sccs(f):
+            shr = set()
+            for b in comp:
+                for e in f.blocks[b].elems:
+                    if f.nodes[e]["k"] == "call":
+                        for d in P.callees(f, e)[0]:
+                            if d is not f:
+                                shr |= shrinks(d)
+            if not shr:
+                continue
+            # variables advanced inside the loop
+            adv = set()
+            for b in comp:
+                for e in f.blocks[b].elems:
+                    m = f.nodes[e]
+                    if (m["k"] == "un" and m["op"] in ("++", "post++")) or (m["k"] == "bin" and m["op"] == "+="):
+                        ln = f.sn(m["sub"] if m["k"] == "un" else m["l"])
+                        if ln["k"] == "ref":
+                            adv.add(ln.get("did"))
+            for b in comp:
+                blk = f.blocks[b]
+                cond = blk.term.get("cond") if blk.term else None
+                if cond is None or not any(s_ not in comp for s_ in C.succs(f, b)):
+                    continue
+                l, op, rr = C.cond_atom(f, cond, True)
+                sides = [l] + ([rr] if not isinstance(rr, tuple) else [])
+                flds = {f.fields_of(x)[-1] for x in sides if f.fields_of(x)}
+                if not flds & shr:
+                    continue
+                n += 1
+                r.instance("%s: loop on %s" % (f.qname, f.show(cond)[:50]))
+                idx = [x for x in sides if f.sn(x)["k"] == "ref" and f.sn(x).get("did") in adv]
+                if idx:
+                    r.violation("%s:drain-loop-skips" % f.name, "the loop `%s` advances %s against a count that its own body decrements (%s): it ends with elements left - their "
+                                "descriptors and registrations are never released" % (f.show(cond), f.show(idx[0]), sorted(flds & shr)), loc=f.loc(cond))
+                else:
+                    r.ok("%s: the loop ends only when %s says the collection is empty" % (f.qname, f.show(cond)[:50]), "loop condition vs. the remover's effect")
+    if n < 1:
+        raise Broken("C08.R11: no draining loop found on the close/cleanup path (ctl_destroy expected)")
